@@ -128,6 +128,11 @@ def classify(c, io, mf):
     if io.startswith("abort:"):
         return ("fail", "abort:%s:%s" % (method, io[len("abort:"):]),
                 "find_neighbors(%s) aborts (%s) instead of returning neighbour lists" % (method, io[len("abort:"):]))
+    if " foreign=" in io:
+        return ("fail", "%s:foreign-id" % method,
+                "find_neighbors(%s) on a range whose elements differ from their positions (rng=) called the callback with an "
+                "argument that is not an element of the range (%s calls): a position (or other index) is passed where *iter is "
+                "meant" % (method, io.rsplit(" foreign=", 1)[1].split()[0]))
     if "bad" in mf:
         return ("broken", "driver:bad-case", "driver rejected the case: " + mf["bad"])
     if "oracle" not in mf:
@@ -226,6 +231,7 @@ def shrink(ctx, binary, c, signature):
 
 
 def judge(ctx, binary, cases, label, brief=False):
+    cases = [G.with_range(c) for c in cases]      # about half of the cases: element != position (rng=)
     res = run_batch(ctx, binary, cases, brief)
     if res is None:
         return
@@ -235,6 +241,7 @@ def judge(ctx, binary, cases, label, brief=False):
         ctx.stat("family:" + label)
         ctx.stat("method:" + c["method"])
         ctx.stat("cb:" + c.get("cb", "plain"))
+        ctx.stat("range:" + G.range_kind(c))
         ctx.stat("N<=8" if n <= 8 else "N<=64" if n <= 64 else "N<=512" if n <= 512 else "N>512")
         ctx.cov["traces_validated_against_impl"] += 1
         if c["method"] == "covertree" and "wf" not in mf and not io.startswith("abort:"):
@@ -429,6 +436,7 @@ def correspond(ctx):
     rp = getattr(ctx, "replay", None)
     if rp and rp.get("case"):
         rc = G.parse_line(rp["case"])[1]
+        rc["_norng"] = True      # exactly the recorded range (rng= is part of the case line when there was one)
         judge(ctx, dv_binary if (rc.get("dv") == "1" and dv_binary) else binary, [rc], "replay")
         return
     corpus = corpus_cases("C02", "knn")
